@@ -37,6 +37,27 @@ pub proof fn lemma_zadd_seq_is_upto(zm: ZM, parts: Seq<RespFrame>, n: int)
 }
 pub open spec fn view_pairs(v: Seq<(f64, Vec<u8>)>) -> Seq<(f64, Seq<u8>)> { v.map_values(|p: (f64, Vec<u8>)| (p.0, p.1@)) }
 
+/// ZREM over the member list the script path's parser hands on; lemma: equal to the direct handler's argument-list form (zrem_upto) when every
+/// member argument is a bulk string — the only shape a script can produce
+pub open spec fn zrem_vec(m: EngineModel, db: int, k: Seq<u8>, members: Seq<Vec<u8>>, n: int) -> (int, DS, Map<(int, Seq<u8>), int>, ZS)
+    decreases n
+{
+    if n <= 0 { (0, m.ds@, m.ttl@, m.z@) } else {
+        let p = zrem_vec(m, db, k, members, n - 1);
+        let x = members[n - 1]@; let zm = zmembers(p.3, db, k);
+        if !zm.contains_key(x) { p }
+        else if zm.remove(x).dom().len() > 0 { (p.0 + 1, p.1, p.2, p.3.insert((db, k), zm.remove(x))) }
+        else { (p.0 + 1, p.1.remove((db, k)), p.2.remove((db, k)), p.3.remove((db, k))) }
+    }
+}
+pub proof fn lemma_zrem_vec_is_upto(m: EngineModel, db: int, k: Seq<u8>, parts: Seq<RespFrame>, n: int)
+    requires all_bulk(parts, 2), 0 <= n <= parts.len() - 2,
+    ensures zrem_vec(m, db, k, args_from(parts, 2), n) == zrem_upto(m, db, k, parts, n + 2),
+    decreases n
+{
+    if n > 0 { lemma_zrem_vec_is_upto(m, db, k, parts, n - 1); assert(parts[n + 1] matches RespFrame::BulkString(Some(_))); }
+}
+
 //@@ item src/storage/commands/executor.rs SortedSetCommand
 /// the parser of the script path (associated functions only)
 pub struct CommandParser;
@@ -90,6 +111,21 @@ impl CommandParser {
             // ... and otherwise hands on exactly the pairs the direct handler applies
             (frames@.len() >= 4 && frames@.len() % 2 == 0 && arg(frames@, 1) is Some && zadd_pairs_ok(frames@)) ==>
                 (r matches Ok(SortedSetCommand::ZAdd { key, score_members }) && key@ == arg(frames@, 1)->Some_0 && view_pairs(score_members@) == zadd_pairs(frames@)),
+//@@ body
+//@@ end
+
+//@@ unit parse_zrem fn src/storage/commands/executor.rs CommandParser::parse_zrem
+//@@   rewrite RT "let mut members = Vec::new();" "let mut members: Vec<Vec<u8>> = Vec::new();"
+//@@   loop 0
+//@@|     invariant 2 <= i <= frames@.len(), members@.len() == i - 2, forall|j: int| 2 <= j < i ==> (#[trigger] frames@[j] matches RespFrame::BulkString(Some(_))),
+//@@|         forall|j: int| 0 <= j < i - 2 ==> members@[j] == arg_vec(frames@, j + 2)->Some_0,
+//@@   afterloop 0
+//@@|     proof { assert(members@ =~= args_from(frames@, 2)); }
+    fn parse_zrem(frames: &[RespFrame]) -> (r: Result<SortedSetCommand>)
+        ensures
+            (frames@.len() < 3 || arg(frames@, 1) is None || !all_bulk(frames@, 2)) ==> r is Err,
+            frames@.len() >= 3 && arg(frames@, 1) is Some && all_bulk(frames@, 2) ==>
+                (r matches Ok(SortedSetCommand::ZRem { key, members }) && key@ == arg(frames@, 1)->Some_0 && members@ == args_from(frames@, 2)),
 //@@ body
 //@@ end
 
@@ -162,6 +198,32 @@ impl UnifiedCommandExecutor {
             }),
 //@@ body
 //@@ end
+//@@ unit exec_zrem arm src/storage/commands/executor.rs UnifiedCommandExecutor::execute_sorted_set "SortedSetCommand::ZRem { key, members }"
+//@@   rewrite RT "let mut removed = 0;" "let mut removed: i64 = 0;"
+//@@   rewrite RFOR 0 it
+//@@   loop 0
+//@@|     invariant
+//@@|         it.seq() == members@, it.history@ =~= it.seq().take(it.index@), 0 <= removed <= it.index@,
+//@@|         other_type(old(self).storage.ds@, db as int, key@) ==> it.index@ == 0 && self.storage.ds@ == old(self).storage.ds@ && self.storage.ttl@ == old(self).storage.ttl@ && self.storage.z@ == old(self).storage.z@,
+//@@|         !other_type(old(self).storage.ds@, db as int, key@) ==> !other_type(self.storage.ds@, db as int, key@)
+//@@|             && (removed as int, self.storage.ds@, self.storage.ttl@, self.storage.z@) == zrem_vec(old(self).storage, db as int, key@, members@, it.index@ as int),
+//@@|     ensures it.index@ == members@.len(),
+//@@   loopstart 0
+//@@|     proof { assert(members@[it.index@ as int] == member); reveal_with_fuel(zrem_vec, 2); }
+    fn exec_zrem(&mut self, db: usize, key: Vec<u8>, members: Vec<Vec<u8>>) -> (r: Result<RespFrame>)
+        requires members@.len() > 0,     // the parser refuses ZREM without members (arity)
+        ensures
+            // C12 / C04: exactly the direct ZREM (handle_zrem, through lemma_zrem_vec_is_upto): a key of another type — no success reply, nothing
+            // changes; otherwise members go left to right, the key disappears with its last member, the reply counts the members that were there
+            other_type(old(self).storage.ds@, db as int, key@) ==> !(r matches Ok(f) && !(f is Error))
+                && final(self).storage.ds@ == old(self).storage.ds@ && final(self).storage.z@ == old(self).storage.z@ && final(self).storage.ttl@ == old(self).storage.ttl@,
+            !other_type(old(self).storage.ds@, db as int, key@) ==> ({
+                let s = zrem_vec(old(self).storage, db as int, key@, members@, members@.len() as int);
+                r == Ok::<RespFrame, FerrousError>(RespFrame::Integer(s.0 as i64)) && final(self).storage.ds@ == s.1 && final(self).storage.ttl@ == s.2 && final(self).storage.z@ == s.3
+            }),
+//@@ body
+//@@ end
+
 //@@ unit exec_zscore arm src/storage/commands/executor.rs UnifiedCommandExecutor::execute_sorted_set "SortedSetCommand::ZScore { key, member }"
 //@@   rewrite RT "RespFrame::from_string(score.to_string())" "verif_score_frame(score)"
     fn exec_zscore(&mut self, db: usize, key: Vec<u8>, member: Vec<u8>) -> (r: Result<RespFrame>)
